@@ -6,8 +6,8 @@
      capturing "(...)" and non-capturing "(?:...)" groups.  The whole pattern must not match the empty string.
    Outside (compared with CPython re by a relational stream only): anchors, "{m,n}", lazy quantifiers, ranges, escapes,
    back-references, look-around, flags, patterns that match the empty string.
-   Modelled here: the gap-tolerant rewriting of cane.py:217-222 as a function on the pattern TEXT ([rw], character by
-   character as the code does) and as a function on the syntax tree ([gapify]); a backtracking matcher with CPython's
+   Modelled here: the gap-tolerant rewriting of cane.py:217-223 as a function on the pattern TEXT ([rw]: the units of
+   re.findall, a class '[...]' being one letter unit, as the code does since fix 7e33c72) and as a function on the syntax tree ([gapify]); a backtracking matcher with CPython's
    priorities (ordered alternation, greedy quantifiers, backtracking into groups); BioMatch.span (cane.py:137-141);
    BioMatchList.groupby for one key (cane.py:28-45,148-157); the rf argument as a total decision table incl. the error class.
    No proofs here. *)
@@ -78,31 +78,77 @@ Fixpoint rx_ok (r : rx) : bool :=
 (* ---------------------------------------------------------------- gap-tolerant rewriting *)
 (* f'[{gap}]*', cane.py:218 *)
 Definition gapstr (g : str) : str := "["%byte :: g ++ ["]"%byte; "*"%byte].
-(* cane.py:219-222 on the pattern text: after a character that is a letter or "." and is followed by a letter or "." *)
-Fixpoint rw (g : str) (s : str) : str :=
+(* cane.py:219-223 (after fix 7e33c72) on the pattern text:
+     units = re.findall(r'\[\^?\]?[^\]]*\]|.', sub, flags=re.S)        a character class '[...]' is one unit, else one character
+     isletter(u) = u.isalpha() or u == '.' or (len(u) > 1 and u[0] == '[')
+     the gap class goes after a letter unit that is followed by a letter unit *)
+Definition cbo : byte := "["%byte.
+Definition cbc : byte := "]"%byte.
+Definition chat : byte := "^"%byte.
+(* [^\]]*\] : everything up to and including the first "]" *)
+Fixpoint to_close (s : str) : option (str * str) :=
   match s with
-  | [] => []
-  | c :: r => c :: (match r with
-                    | n :: _ => if wordch c && wordch n then gapstr g else []
-                    | [] => []
-                    end) ++ rw g r
+  | [] => None
+  | x :: r => if byte_eqb x cbc then Some ([x], r)
+              else match to_close r with Some (a, b) => Some (x :: a, b) | None => None end
   end.
+(* \^?\]?[^\]]*\] after the opening "[" (greedy optionals; the optional "]" is given back when nothing closes after it) *)
+Definition class_unit (s : str) : option (str * str) :=
+  let '(p1, s1) := match s with x :: r => if byte_eqb x chat then ([x], r) else ([], s) | [] => ([], s) end in
+  let '(p2, s2) := match s1 with x :: r => if byte_eqb x cbc then ([x], r) else ([], s1) | [] => ([], s1) end in
+  match to_close s2 with
+  | Some (a, b) => Some (p1 ++ p2 ++ a, b)
+  | None => match p2 with [] => None | _ => Some (p1 ++ p2, s2) end
+  end.
+(* re.findall of the alternation, left to right; every unit consumes, so length s rounds of fuel are enough *)
+Fixpoint units (fuel : nat) (s : str) : list str :=
+  match fuel with
+  | O => []
+  | S f =>
+      match s with
+      | [] => []
+      | x :: r =>
+          if byte_eqb x cbo then
+            match class_unit r with
+            | Some (u, rest) => (x :: u) :: units f rest
+            | None => [x] :: units f r
+            end
+          else [x] :: units f r
+      end
+  end.
+Definition isletter (u : str) : bool :=
+  match u with
+  | [] => false
+  | [c] => wordch c
+  | c :: _ :: _ => byte_eqb c cbo
+  end.
+Fixpoint join_units (g : str) (us : list str) : str :=
+  match us with
+  | [] => []
+  | u :: r => u ++ (match r with
+                    | n :: _ => if isletter u && isletter n then gapstr g else []
+                    | [] => []
+                    end) ++ join_units g r
+  end.
+Definition rw (g : str) (s : str) : str := join_units g (units (length s) s).
 
 (* the same on the syntax tree: the filler goes between two neighbours of a concatenation whose texts end / begin with a
-   letter or "." *)
+   letter unit (a letter, "." or a class) *)
 Definition filler (g : str) : rx := XStar (XCls false g).
 Fixpoint first_plain (r : rx) : bool :=
   match r with
   | XChr c => wordch c
   | XDot => true
-  | XCls _ _ | XGrp _ _ => false
+  | XCls _ _ => true
+  | XGrp _ _ => false
   | XCat a _ | XAlt a _ | XStar a | XPlus a | XOpt a => first_plain a
   end.
 Fixpoint last_plain (r : rx) : bool :=
   match r with
   | XChr c => wordch c
   | XDot => true
-  | XCls _ _ | XGrp _ _ | XStar _ | XPlus _ | XOpt _ => false
+  | XCls _ _ => true
+  | XGrp _ _ | XStar _ | XPlus _ | XOpt _ => false
   | XCat _ b | XAlt _ b => last_plain b
   end.
 Fixpoint gapify (g : str) (r : rx) : rx :=
@@ -114,20 +160,6 @@ Fixpoint gapify (g : str) (r : rx) : rx :=
   | XPlus a => XPlus (gapify g a)
   | XOpt a => XOpt (gapify g a)
   | XGrp c a => XGrp c (gapify g a)
-  end.
-(* no two neighbouring letters / "." in a text: the rewriting leaves it alone *)
-Fixpoint noadj (s : str) : bool :=
-  match s with
-  | [] => true
-  | c :: r => match r with n :: _ => negb (wordch c && wordch n) | [] => true end && noadj r
-  end.
-(* classes that survive the character-level rewriting (a class of two neighbouring letters is torn apart: PENDING FIX class_gap) *)
-Fixpoint cls_gap_ok (r : rx) : bool :=
-  match r with
-  | XChr _ | XDot => true
-  | XCls neg cs => noadj (show_cls neg cs)
-  | XCat a b | XAlt a b => cls_gap_ok a && cls_gap_ok b
-  | XStar a | XPlus a | XOpt a | XGrp _ a => cls_gap_ok a
   end.
 Definition eff_rx (gap : option str) (r : rx) : rx := match gap with Some g => gapify g r | None => r end.
 Definition eff_text (gap : option str) (t : str) : str := match gap with Some g => rw g t | None => t end.
@@ -282,7 +314,7 @@ Definition bwd_spec_m (P : str -> Prop) (s : str) (l : list Z) (start : Z) (gap 
 Definition wf_rx (seqs : list str) (sub : str) (r : rx) (rf : rfany) (start : Z) (gap : option str) : bool :=
   forallb wf_seq seqs && rx_ok r && negb (nullable r) && str_eqb (show r) (expand_sub sub) && (0 <=? start) && wf_gap gap &&
   match gap with
-  | Some g => cls_gap_ok r && str_eqb (rw g (show r)) (show (gapify g r))      (* PENDING FIX class_gap *)
+  | Some g => str_eqb (rw g (show r)) (show (gapify g r))      (* always true inside rx_ok: theorem C13_rx_rewrite_text_is_tree *)
   | None => true
   end.
 
